@@ -31,6 +31,8 @@ def name_axis(name):
     toks = name.lower().split("_")
     if len(toks) == 2 and toks[0] in ("kernel", "stride", "dilation", "filter", "pad", "padding", "upscale") and toks[1] in ("h", "w"):
         return "H" if toks[1] == "h" else "W"
+    if len(toks) >= 3 and toks[-1] in ("h", "w") and toks[-2] in ("input", "input2", "output", "ifm", "ifm2", "ofm", "stripe", "block", "kernel", "stride"):
+        return "H" if toks[-1] == "h" else "W"  # stripe_input_h, ifm_block_w, ...
     for t in (toks[-1],):
         if t in ("x", "y", "z", "width", "height", "depth", "top", "bottom", "left", "right"):
             return AXIS_OF_WORD[t]
@@ -110,7 +112,8 @@ class RoleChecker:
             if a:
                 out.append((a, norm(node)))
             else:
-                for arg in node.args[:1] if call_name(node).endswith(("round_up", "round_up_divide")) else node.args:
+                # round_up(x, quantum): a quantum that names an axis (ublock.height) belongs to x's axis as well
+                for arg in node.args:
                     self.axes(arg, out)
         elif isinstance(node, ast.IfExp):
             self.axes(node.body, out)
